@@ -84,7 +84,7 @@ def run(ctx):
     from hpl.parser import expression_parser, predicate_parser
     ep, prp = expression_parser(), predicate_parser()
     genv = grid_envs()
-    forms = grammar(rng, 300 if ctx.quick else 5000)
+    forms = grammar(rng, 300 if ctx.quick else 2000)
     if ctx.quick:
         rest = forms[120:]
         quants1 = [f for f in rest if f[0] == 'quant'] + [f for f in rest if f[0] == 'un' and f[2][0] == 'quant']
@@ -103,7 +103,7 @@ def run(ctx):
             cases.append(({'kind': 'grammar', 'expr': render(r, None, 'min'), 'alias': alias}, e, alias, genv))
     n_grammar = len(cases)
     g = Gen(rng, aliases=['A', 'B'], max_depth=5, opaque=False, consts=False)
-    for _ in range(400 if ctx.quick else 5000):
+    for _ in range(400 if ctx.quick else 2500):
         r = g.expr(BOOL, depth=rng.randrange(2, 6))
         try:
             txt = render(r, rng, 'min')
@@ -111,7 +111,7 @@ def run(ctx):
         except Exception:
             rejects += 1
             continue
-        envs = [gen_env(rng) for _ in range(6 if ctx.quick else 12)]
+        envs = [gen_env(rng) for _ in range(6 if ctx.quick else 8)]
         cases.append(({'kind': 'random', 'expr': txt, 'as': 'predicate' if obj.is_predicate else 'expression', 'alias': 'A'}, obj, 'A', envs))
 
     disagreements, violations = [], []
